@@ -54,8 +54,13 @@ func genC16(r *Rng, k int) *RunSpec {
 		DocSpec{st.Col1, mustJSON(J{"@context": asCtx, "type": "Collection", "id": st.Col1, "items": []string{st.Dave}})},
 		DocSpec{st.OCol1, mustJSON(J{"@context": asCtx, "type": "OrderedCollection", "id": st.OCol1, "orderedItems": []string{st.Erin, st.Dave}})},
 		DocSpec{dupCol, mustJSON(J{"@context": asCtx, "type": "OrderedCollection", "id": dupCol, "orderedItems": []string{st.Dave, st.Erin, st.Dave, objs[0], st.Dave}})},
-		DocSpec{st.Alice.Liked, mustJSON(J{"@context": asCtx, "type": "Collection", "id": st.Alice.Liked, "items": []string{"https://" + hostR + "/n/liked-before"}})},
 	)
+	if r.Bool() { // otherwise the liked collection has no items member yet
+		a.Docs = append(a.Docs, DocSpec{st.Alice.Liked, mustJSON(J{"@context": asCtx, "type": "Collection", "id": st.Alice.Liked, "items": []string{"https://" + hostR + "/n/liked-before"}})})
+	}
+	if r.Intn(3) == 0 { // target collections without an items member
+		a.Docs = append(a.Docs, DocSpec{st.Col1, mustJSON(J{"@context": asCtx, "type": "Collection", "id": st.Col1})})
+	}
 	rcol := "https://" + hostR + "/c/x"
 	st.W.Remote = append(st.W.Remote, DocSpec{rcol, mustJSON(J{"@context": asCtx, "type": "Collection", "id": rcol, "items": []string{st.Erin}})})
 	body := J{"@context": asCtx, "actor": st.Alice.ID, "to": st.Dave}
